@@ -199,6 +199,20 @@ def make_context(sc, rep='f64', condition='clean', masked_array_mask=False,
         from photutils.segmentation import detect_sources
         clean = np.where(np.isfinite(img), img, sc['pedestal'])
         X.segm = detect_sources(clean, X.thr, 5)
+    # caller-owned inputs of the utility entries
+    X.depth_mask = None
+    if X.segm is not None:
+        X.depth_mask = X.segm.make_source_mask(size=3)
+        if X.m is not None:
+            X.depth_mask = X.depth_mask | np.asarray(X.m)
+    iy, ix = np.mgrid[2:ny:6, 3:nx:7]
+    X.idw_coords = np.column_stack([ix.ravel(), iy.ravel()]).astype(float)
+    X.idw_vals = np.where(np.isfinite(img), img, 0.0)[iy.ravel(), ix.ravel()]
+    from astropy.table import Table as _T
+    X.star_tbl = _T({'x': [p[0] for p in pos[:-1]], 'y': [p[1] for p in pos[:-1]]})
+    py_, px_ = np.mgrid[0:15, 0:15]
+    X.psf_a = np.exp(-((py_ - 7) ** 2 + (px_ - 7) ** 2) / 8.0)
+    X.psf_b = np.exp(-((py_ - 7) ** 2 + (px_ - 7) ** 2) / 18.0)
     # a small elliptical galaxy for the isophote entry
     gy, gx = np.mgrid[0:40, 0:44].astype(float)
     xr = (gx - 22.3) * 0.8253 + (gy - 19.7) * 0.5646
@@ -380,6 +394,90 @@ def _entries():
     E['Ellipse'] = _ellipse
     E['data_properties'] = lambda X: data_properties(
         cut(X, X.d), mask=cut(X, X.m))
+
+    # entry points outside C02-C20's own wording but public and array-taking
+    # (added in the third session: PSF fitting helpers, morphology, utils,
+    # segmentation helpers, PSF matching)
+    def _fit_gauss(X):
+        from photutils.psf import fit_2dgaussian, fit_fwhm
+        xy = [(p[0], p[1]) for p in X.aper.positions[:2]]
+        ph = fit_2dgaussian(X.d, xypos=xy, fwhm=4.0, fit_shape=(7, 7),
+                            mask=X.m, error=X.e)
+        return ph.results, fit_fwhm(X.d, xypos=xy, fit_shape=7, mask=X.m,
+                                    error=X.e)
+    E['fit_2dgaussian_fwhm'] = _fit_gauss
+
+    def _gini(X):
+        from photutils.morphology import gini
+        return gini(cut(X, X.d), mask=cut(X, X.m))
+    E['gini'] = _gini
+
+    def _cutout(X):
+        from photutils.utils import CutoutImage
+        out = []
+        for mode, pos in (('trim', (1, 2)), ('partial', (0, X.shape[1] - 1)),
+                          ('partial', (int(X.xy[1]), int(X.xy[0])))):
+            c = CutoutImage(X.d, pos, (7, 9), mode=mode, fill_value=7,
+                            copy=True)
+            out += [c.data, np.array(c.bbox_original.shape),
+                    np.array(c.xyorigin)]
+        return out
+    E['CutoutImage'] = _cutout
+
+    def _idw(X):
+        from photutils.utils import ShepardIDWInterpolator
+        f = ShepardIDWInterpolator(X.idw_coords, X.idw_vals)
+        return f(np.array([[5.5, 6.25], [20.0, 21.0], [3.0, 2.0]]),
+                 n_neighbors=5, power=2.0, reg=1.0)
+    E['ShepardIDWInterpolator'] = _idw
+
+    def _srcmask(X):
+        from photutils.utils import circular_footprint
+        return (X.segm.make_source_mask(footprint=circular_footprint(2)),
+                X.segm.make_source_mask(size=3), X.segm.make_source_mask())
+    E['make_source_mask'] = _srcmask
+
+    def _extract(X):
+        from astropy.table import Table
+        from photutils.psf import extract_stars
+        nd = NDData(np.asarray(getattr(X.d, 'value', X.d)), mask=X.m,
+                    unit=X.unit)
+        stars = extract_stars(nd, X.star_tbl, size=(9, 7))
+        return [s.data for s in stars.all_stars] + [
+            np.array(s.cutout_center) for s in stars.all_stars]
+    E['extract_stars'] = _extract
+
+    def _matching(X):
+        from photutils.psf.matching import (SplitCosineBellWindow,
+                                            create_matching_kernel,
+                                            resize_psf)
+        return (create_matching_kernel(X.psf_a, X.psf_b,
+                                       window=SplitCosineBellWindow(0.3, 0.4)),
+                resize_psf(X.psf_a, 0.1, 0.05))
+    E['psf_matching'] = _matching
+
+    def _depth(X):
+        from photutils.utils import ImageDepth
+        m = X.depth_mask
+        dep = ImageDepth(2.0, nsigma=3.0, napers=40, niters=2, seed=5,
+                         progress_bar=False, mask_pad=1)
+        return dep(np.asarray(getattr(X.d, 'value', X.d)), m)
+    E['ImageDepth'] = _depth
+
+    def _idw_bkg(X):
+        from photutils.background import BkgIDWInterpolator
+        return Background2D(X.d, (11, 13), mask=X.m, filter_size=1,
+                            exclude_percentile=60.0,
+                            interpolator=BkgIDWInterpolator(n_neighbors=4))
+    E['Background2D_idw'] = _idw_bkg
+
+    def _segm_cutouts(X):
+        cat = SourceCatalog(X.d, X.segm, error=X.e, mask=X.m)
+        cuts = cat.make_cutouts((9, 11), mode='partial', fill_value=0.0)
+        kr = cat.make_kron_apertures()
+        return [c.data for c in cuts if c is not None] + [
+            np.asarray(a.positions) for a in kr if a is not None]
+    E['SourceCatalog_cutouts'] = _segm_cutouts
     return E
 
 
